@@ -125,3 +125,8 @@ package xbus
 //@ func (*socket).SetOption
 //@   ensures (name == protocol.OptionReadQLen) && isnil(result) ==> evcount("closed") == 1
 //@   ensures !isnil(result) ==> evcount("closed") == 0
+// ---- generated Info contracts (tools/gen_info_contracts.py) ----
+//@ func (*socket).Info
+//@   ensures result.Self == 112 && result.Peer == 112 && result.SelfName == "bus" && result.PeerName == "bus"
+//@
+// ---- end generated Info contracts ----
